@@ -495,8 +495,113 @@ func runC03(t *testing.T, x c03Scn, verbose bool) vfCase {
 	return c
 }
 
+// ---- grammar-built packets with length / field mutations, through the whole inbound path ----
+//
+// The inject sub-check crafts a few dozen hand-picked kinds. This one takes packets from
+// the codec grammar of C12 (every chunk, parameter and cause type with generated fields),
+// applies byte / length mutations (including chunk and TLV lengths off by -3..+3), patches
+// the victim's verification tag and a correct checksum in, and delivers them to endpoints
+// in the middle of a transfer. They are forgeries (a well-formed ABORT closes the
+// association), so only "no panic, no hang, internal state consistent" is judged.
+
+type c03Bytes struct {
+	IL  bool      `json:"il"`
+	TSN [2]uint32 `json:"tsn"`
+	Pk  []c12Mut  `json:"pk"`
+	At  []int     `json:"at"` // ms after start (35 = around establishment)
+	To  []int     `json:"to"`
+}
+
+func genC03Bytes(rt *rapid.T) c03Bytes {
+	x := c03Bytes{IL: rapid.Bool().Draw(rt, "il"), TSN: [2]uint32{genTSN(rt, "tsna", 8448), genTSN(rt, "tsnb", 8448)}}
+	n := rapid.IntRange(4, 40).Draw(rt, "n")
+	for i := 0; i < n; i++ {
+		m := c12Mut{Sc: c12Scn{VTag: 0, Csum: true}}
+		nc := rapid.SampledFrom([]int{1, 1, 1, 2, 3}).Draw(rt, "nchunks")
+		for k := 0; k < nc; k++ {
+			m.Sc.Chunks = append(m.Sc.Chunks, genC12Chunk(rt, c12Types))
+		}
+		nm := rapid.IntRange(0, 3).Draw(rt, "nmut")
+		for k := 0; k < nm; k++ {
+			m.Muts = append(m.Muts, [3]int{rapid.SampledFrom([]int{0, 1, 2, 3, 4, 5, 5, 6, 6}).Draw(rt, "mk"), rapid.IntRange(0, 4000).Draw(rt, "mpos"), rapid.IntRange(0, 255).Draw(rt, "mval")})
+		}
+		x.Pk = append(x.Pk, m)
+		x.At = append(x.At, rapid.SampledFrom([]int{5, 20, 35, 35, 36, 40, 60, 150}).Draw(rt, "at"))
+		x.To = append(x.To, rapid.IntRange(0, 1).Draw(rt, "to"))
+	}
+	return x
+}
+
+func runC03Bytes(t *testing.T, x c03Bytes, verbose bool) vfCase {
+	var c vfCase
+	var sc vfE1
+	sc.Cfg[0] = vfSideCfg{IL: x.IL, TSN: x.TSN[0], RTOMax: 1000}
+	sc.Cfg[1] = vfSideCfg{IL: x.IL, TSN: x.TSN[1], RTOMax: 1000}
+	sc.Acts = []vfAct{{AtMs: 0, Side: 0, Kind: "write", SID: 1, Size: 3000, PPI: 53}, {AtMs: 0, Side: 1, Kind: "write", SID: 2, Size: 3000, PPI: 53},
+		{AtMs: 100, Side: 0, Kind: "write", SID: 1, Size: 10, PPI: 53}}
+	verdict := ""
+	reached := 0
+	types := map[uint8]bool{}
+	out := vfRunE1(t, &sc, vfE1Opts{verbose: verbose, bound: func(*vfSim) time.Duration { return 3 * time.Second },
+		preHS: func(s *vfSim) {
+			for i := range x.Pk {
+				m, to := x.Pk[i], x.To[i]
+				s.o.at(s.net.start.Add(time.Duration(x.At[i])*time.Millisecond+time.Duration(i)*50*time.Microsecond), func() {
+					a := s.as[to]
+					if a == nil || verdict != "" {
+						return
+					}
+					p := &packet{sourcePort: 5000, destinationPort: 5000}
+					for _, ch := range m.Sc.Chunks {
+						p.chunks = append(p.chunks, ch.lib())
+					}
+					raw, err := p.marshal(false)
+					if err != nil || len(raw) < 16 {
+						return
+					}
+					b := c12ApplyMuts(raw, m.Muts)
+					if len(b) < 16 {
+						return // shorter than a common header plus a chunk header: covered by the raw kind
+					}
+					if b[12] != wtINIT {
+						a.lock.RLock()
+						binary.BigEndian.PutUint32(b[4:], a.myVerificationTag)
+						a.lock.RUnlock()
+					} else {
+						binary.BigEndian.PutUint32(b[4:], 0)
+					}
+					wFixCRC(b)
+					before := a.stats.getNumPacketsReceived()
+					s.net.inject(to, b)
+					types[b[12]] = true
+					s.o.after(0, func() {
+						if a.stats.getNumPacketsReceived() != before {
+							reached++
+						}
+						if verdict == "" {
+							verdict = c03Invariants(a, nil)
+						}
+					})
+				})
+			}
+		}})
+	if verdict != "" {
+		c.fail("state-corrupted", "%s", verdict)
+	}
+	if out.Panic != "" && out.HSOK && c.Verdict == "" {
+		c.fail("bubble-panic", "bubble: %s", out.Panic)
+	}
+	c.class(fmt.Sprintf("%d-first-chunk-types", len(types)/4*4))
+	c.Nontrivial = reached >= 2
+	if (c.Verdict != "" || verbose) && out.sim != nil {
+		c.Detail = out.sim.history(150)
+	}
+	return c
+}
+
 func TestVF_C03(t *testing.T) {
 	vfExplore(t, "C03", "inject", vfN(3200, 80000), genC03, func(x c03Scn) vfCase { return runC03(t, x, vfEnv.Replay != "") })
+	vfExplore(t, "C03", "grammar-bytes", vfN(1600, 40000), genC03Bytes, func(x c03Bytes) vfCase { return runC03Bytes(t, x, vfEnv.Replay != "") })
 }
 
 // FuzzVF_C03: coverage-guided; bytes are split into packets injected into an established
